@@ -32,7 +32,10 @@ import attrs
 import c03_ir
 
 ID = "C03"
-RULE = ("T3: one `script` case per generated class in the thorough tier (every 12th class in the quick tier) -- the real "
+RULE = ("field spelling and __init__ participation as a dimension (45% of the classes): private names, explicit aliases, "
+        "init=False fields with no / a constant / a factory default whose values are put in place after construction "
+        "(object.__setattr__, also on frozen classes), aliases colliding with an init=False field's alias (`_tag` next to "
+        "`tag`, alias='y' next to a field y) preferably between two keyed fields; every such class is also a T3 script case. T3: one `script` case per generated class in the thorough tier (every 12th class in the quick tier) -- the real "
         "source text of that class's generated __eq__ (literal lines + strict parse into the IR of Model/C03IR.lean + what its "
         "helper globals are bound to) and of the shared __ne__ helper, compared syntactically with the model generator's "
         "text/script and executed in Lean on a canonical operand family (all per-field outcome vectors over {T,F}, all four "
@@ -328,7 +331,41 @@ def _field_kwargs(f, arg=None):
     h = f.get("hash", "unset")
     if h != "unset":
         kw["hash"] = h == "t"
+    if f.get("init", True) is False:
+        kw["init"] = False
+        d = f.get("dflt", "none")
+        if d == "const":
+            kw["default"] = CONST_DEFAULT
+        elif d == "factory":
+            kw["factory"] = _fresh_default
+    if f.get("alias"):
+        kw["alias"] = f["alias"]
     return kw
+
+
+class _Default:
+    """what an init=False field holds until its value is put in place after construction; never compared"""
+    __hash__ = None
+
+    def __eq__(self, other):
+        LOG.append("DEFAULT")
+        return True
+
+    def __ne__(self, other):
+        LOG.append("DEFAULT!=")
+        return False
+
+
+CONST_DEFAULT = _Default()
+
+
+def _fresh_default():
+    return _Default()
+
+
+def eff_alias(f):
+    """the __init__ argument name attrs derives: explicit alias, else the name without leading underscores"""
+    return f.get("alias") or f["name"].lstrip("_")
 
 
 def _scripted_methods(layer, who):
@@ -453,6 +490,13 @@ def valid(case):
     if h["hashedY"] and case["rhs"] != "same":
         return False
     names = [f["name"] for f in case["fields"]]
+    if len(set(names)) != len(names):
+        return False
+    init_aliases = [eff_alias(f) for f in case["fields"] if f.get("init", True) is not False]
+    if len(set(init_aliases)) != len(init_aliases) or any(not a.isidentifier() for a in init_aliases):
+        return False
+    if any(f.get("dflt", "none") != "none" and f.get("init", True) is not False for f in case["fields"]):
+        return False
     if any(n not in names for n in h["reassignedX"] + h["reassignedY"]):
         return False
     for f in case["fields"]:
@@ -536,7 +580,8 @@ def _deco(api):
 
 def build(case):
     cfg = case.get("cfg", {})
-    key = (tuple((f["name"], f["cmp"], f["eq"], f.get("order", "unset"), f.get("hash", "unset")) for f in case["fields"]),
+    key = (tuple((f["name"], f["cmp"], f["eq"], f.get("order", "unset"), f.get("hash", "unset"), f.get("alias"),
+                  f.get("init", True), f.get("dflt", "none")) for f in case["fields"]),
            case["rhs"],
            json.dumps(cfg, sort_keys=True))
     got = _CLASS_CACHE.get(key)
@@ -630,16 +675,30 @@ def build(case):
     return res
 
 
-def _make(cls, root, payload, vals):
+def _make(cls, root, payload, vals, specs=None):
+    """an instance whose field `name` holds vals[name]: __init__ arguments go in by alias; init=False fields get
+    their default from __init__ and the value is put in place afterwards (object.__setattr__: the documented way
+    for derived fields of frozen classes)"""
+    specs = specs or {}
+    kwargs, later = {}, {}
+    for n, v in vals.items():
+        f = specs.get(n)
+        if f is not None and f.get("init", True) is False:
+            later[n] = v
+        else:
+            kwargs[eff_alias(f) if f is not None else n] = v
     if root in BUILTIN_ROOTS:
         inst = cls.__new__(cls, payload) if root in NEW_WITH_PAYLOAD else cls.__new__(cls)
         if root == "list":
             list.extend(inst, payload)
         elif root == "dict":
             dict.update(inst, payload)
-        inst.__init__(**vals)
-        return inst
-    return cls(**vals)
+        inst.__init__(**kwargs)
+    else:
+        inst = cls(**kwargs)
+    for n, v in later.items():
+        object.__setattr__(inst, n, v)
+    return inst
 
 
 def observe(case):
@@ -671,21 +730,22 @@ def observe(case):
         x0[n] = S(n + ":stale", "F", "F", "T", "T", 3000 + 16 * i)
     for i, n in enumerate(hist.get("reassignedY", [])):
         y0[n] = S(n + ":stale", "F", "F", "T", "T", 4000 + 16 * i)
-    x = _make(C, root, px, x0)
+    specs = {f["name"]: f for f in fs}
+    x = _make(C, root, px, x0, specs)
     rhs = case["rhs"]
     if rhs == "same":
-        y = _make(C, root, py, y0)
+        y = _make(C, root, py, y0, specs)
     elif rhs == "identical":
         y = x
     elif rhs == "sub":
-        y = _make(D, root, py, y0)
+        y = _make(D, root, py, y0, specs)
     elif rhs == "super":
         if Base is Root:      # no attrs base: an instance of the root itself
             y = Root(py) if root in BUILTIN_ROOTS else Root()
         else:
-            y = _make(Base, root, py, {n: yv[n] for n in base_names})
+            y = _make(Base, root, py, {n: yv[n] for n in base_names}, specs)
     else:
-        y = _make(F, "object", None, yv) if cfg.get("foreign_kind", "twin") == "twin" else F()
+        y = _make(F, "object", None, yv, specs) if cfg.get("foreign_kind", "twin") == "twin" else F()
     # ---- history
     if hist.get("hashedX"):
         try:
@@ -974,10 +1034,44 @@ def _dress(rng, f):
     return f
 
 
+def _spell(rng, fields):
+    """names, aliases and __init__ participation as a dimension: private names, explicit aliases, init=False fields
+    with no / a constant / a factory default (their values are put in place after construction), and aliases that
+    collide with another (init=False) field's alias -- preferably between two keyed fields"""
+    fs = [dict(f, init=True, dflt="none", alias=None) for f in fields]
+    n = len(fs)
+    if n == 0 or rng.random() < 0.55:
+        return fs
+    for f in fs:
+        r = rng.random()
+        if r < 0.15:
+            f["name"] = "_" + f["name"]                      # private: alias = the public spelling
+        elif r < 0.22:
+            f["alias"] = "arg_" + f["name"]
+        if rng.random() < 0.2:
+            f.update(init=False, dflt=rng.choice(["none", "const", "const", "factory"]))
+    if n >= 2 and rng.random() < 0.5:
+        i, j = rng.sample(range(n), 2)
+        a, b = fs[i], fs[j]
+        b.update(init=False, dflt=rng.choice(["none", "const", "factory"]), alias=None)
+        b["name"] = b["name"].lstrip("_")
+        if rng.random() < 0.5:
+            a.update(name="_" + b["name"], alias=None, init=True, dflt="none")     # `_tag` next to `tag`
+        else:
+            a.update(alias=b["name"], init=True, dflt="none")                      # explicit alias = other field's name
+        if rng.random() < 0.7:
+            for f in (a, b):
+                if f["cmp"] == "unset" and f["eq"] != "f":
+                    f["eq"] = "key"
+                elif f["cmp"] != "unset":
+                    f["cmp"] = "key"
+    return fs
+
+
 def _case(rng, fields, rhs):
     for _ in range(50):
         cfg = _rand_cfg(rng)
-        fs = [_dress(rng, f) for f in fields]
+        fs = [_dress(rng, f) for f in _spell(rng, fields)]
         c = {"fields": fs, "rhs": rhs, "cfg": cfg, "hist": _rand_hist(rng, cfg, fs, rhs)}
         if valid(c):
             return _finish(c)
@@ -997,13 +1091,17 @@ def _field_space(reduced):
                     yield {"cmp": cmp_, "eq": eq, "order": order, "raw": raw, "keyed": keyed, "sameObj": same}
 
 
+def _special_spelling(case):
+    return any(f["name"].startswith("_") or f.get("alias") or f.get("init", True) is False for f in case["fields"])
+
+
 def gen_cases(tier, rng):
     """ordinary cases, plus T3 script cases: one per generated class in the thorough tier, every 12th in the quick tier"""
     every = 1 if tier == "thorough" else 12
     for i, c in enumerate(_gen_operand_cases(tier, rng)):
         yield c
         # wide classes always get their script case: a size threshold in the generator shows in the text at once
-        if i % every == 0 or len(c["fields"]) > len(NAMES):
+        if i % every == 0 or len(c["fields"]) > len(NAMES) or _special_spelling(c):
             yield make_script_case(c)
 
 
@@ -1090,7 +1188,8 @@ def shrink(case):
             for n in hist[k]:
                 yield from _emit(dict(base, hist=dict(hist, **{k: [m for m in hist[k] if m != n]})))
     for i, f in enumerate(fs):
-        for k, v in (("fault", "none"), ("excKind", "user"), ("unhashable", False), ("reprEq", True),
+        for k, v in (("alias", None), ("dflt", "none"), ("init", True),
+                     ("fault", "none"), ("excKind", "user"), ("unhashable", False), ("reprEq", True),
                      ("cmp", "unset"), ("eq", "unset"), ("order", "unset"), ("orderKeyed", "T"), ("sameObj", False), ("raw", "T"), ("keyed", "T"),
                      ("hash", "unset"), ("hashDiffers", False), ("neRaw", "T"), ("neKeyed", "T")):
             if f.get(k) != v:
